@@ -236,10 +236,15 @@ def run(ck, facts, tier):
     c08.rule_patch_sites(ck, facts)
     c08.rule_predicate(ck, facts)
     c08.rule_lcs(ck, facts)
+    c08.rule_score_dominance(ck, facts)
     c08.rule_apply(ck, facts)
     c08.rule_addressing(ck, facts)
     c08.rule_fast_path(ck, facts)
     c08.rule_no_plan(ck, facts)
     c08.rule_source_size(ck, facts)
     c05.rule_order(ck, facts)
+    # what runs on the new machine after the migrated state was installed must not cut it back
+    from . import c06
+
+    c06.rule_vm_post_install(ck, facts)
     ck.not_decided("which call sites an edit leaves untouched, and sample-exact continuity of channels that depend only on them")
